@@ -4,31 +4,37 @@
 EXTENDS Naturals, Sequences, FiniteSets, TLC, Json, IOUtils
 Trace == ndJsonDeserialize(IOEnv.VERIF_TRACE)
 N == Len(Trace)
-VARIABLES l
+Prop == IF "VERIF_PROP" \in DOMAIN IOEnv THEN IOEnv.VERIF_PROP ELSE "ALL"
+G(p, cond) == (Prop = p \/ Prop = "ALL") => cond
+VARIABLES l, fired
 Ev == Trace[l]
 Is(e) == l <= N /\ Ev.ev = e
 Step == l' = l + 1 /\ TLCSet(1, l)
-Init == l = 1 /\ TLCSet(1, 0)
+Init == l = 1 /\ fired = {} /\ TLCSet(1, 0)
+Reset == Is("Reset") /\ fired' = {} /\ Step
+\* C09: each (plugin, stage) fires at most once per message, also when the message is re-written after a redial
+Hook == Is("Hook") /\ G("C09", Ev.stage = "PreReadHeader" \/ <<Ev.pl, Ev.stage, Ev.seq>> \notin fired)
+        /\ fired' = fired \cup {<<Ev.pl, Ev.stage, Ev.seq>>} /\ Step
 ConnErr == {102, 104, 105}
 \* calls complete (never hang): with the reply when the session is healthy, with a connection error once it ended
 CallDone ==
   /\ Is("CallDone")
-  /\ CASE Ev.expect = "ok" -> Ev.code = 0 /\ Ev.resok
+  /\ G("C13", CASE Ev.expect = "ok" -> Ev.code = 0 /\ Ev.resok
        [] Ev.expect = "connerr" -> Ev.code \in ConnErr
-       [] OTHER -> (Ev.code = 0 /\ Ev.resok) \/ Ev.code \in ConnErr
-  /\ Step
+       [] OTHER -> (Ev.code = 0 /\ Ev.resok) \/ Ev.code \in ConnErr)
+  /\ UNCHANGED fired /\ Step
 \* quiescent points: the same Session value is healthy again after a loss (dial hooks re-run, user id kept),
 \* or it has ended: close notification fired, not in the index
 Probe ==
   /\ Is("Probe")
-  /\ IF Ev.expect = "healthy"
+  /\ G("C13", IF Ev.expect = "healthy"
        THEN Ev.health /\ ~Ev.notified /\ Ev.indexed /\ Ev.idok /\ (Ev.losses > 0 /\ Ev.budget # 0 => Ev.redialhooks >= 1)
-       ELSE Ev.notified /\ ~Ev.indexed
-  /\ Step
-DialDone == Is("DialDone") /\ Ev.ok /\ Step
-Known == {"CallDone", "Probe", "DialDone", "CallHang", "WaitHang", "LossUndetected"}
-Skip == l <= N /\ Ev.ev \notin Known /\ Step
-Next == CallDone \/ Probe \/ DialDone \/ Skip
-Spec == Init /\ [][Next]_l
+       ELSE Ev.notified /\ ~Ev.indexed)
+  /\ UNCHANGED fired /\ Step
+DialDone == Is("DialDone") /\ Ev.ok /\ UNCHANGED fired /\ Step
+Known == {"Reset", "Hook", "CallDone", "Probe", "DialDone", "CallHang", "WaitHang", "LossUndetected"}
+Skip == l <= N /\ Ev.ev \notin Known /\ UNCHANGED fired /\ Step
+Next == Reset \/ Hook \/ CallDone \/ Probe \/ DialDone \/ Skip
+Spec == Init /\ [][Next]_<<l, fired>>
 Accepted == PrintT(<<"HWM", TLCGet(1), N>>) /\ TRUE
 =============================================================================
